@@ -456,3 +456,84 @@ def effective_target_fids(eng, call, depth=2):
             if len(rets) == 1 and isinstance(rets[0].value, ast.Call) and id(rets[0].value) in eng.res.calls:
                 out |= effective_target_fids(eng, rets[0].value, depth - 1)
     return out
+
+
+def tuple_position_from_call(eng, cfg, at_stmt, expr, target_fids, depth=3):
+    """If `expr` (evaluated in at_stmt) is position i of the tuple returned by a call resolving to one of target_fids, return (i, key of the call); else None.
+    Forms looked through: `a, b, c = f()`, `a, b, c = f()[:3]` / `f()[1:4]`, `res = f(); res[i]`, `f()[i]`, plain copies `y = x`."""
+    def is_target(call):
+        ci = eng.res.calls.get(id(call)) if isinstance(call, ast.Call) else None
+        return ci is not None and any(t.fid in target_fids for t in ci.targets)
+
+    def sliced(v):
+        """(call, offset) for f() / f()[a:b]"""
+        if is_target(v):
+            return v, 0
+        if isinstance(v, ast.Subscript) and isinstance(v.slice, ast.Slice) and v.slice.step is None and is_target(v.value):
+            lo = v.slice.lower
+            if lo is None:
+                return v.value, 0
+            if isinstance(lo, ast.Constant) and isinstance(lo.value, int) and lo.value >= 0:
+                return v.value, lo.value
+        return None, None
+
+    if depth <= 0:
+        return None
+    if isinstance(expr, ast.Subscript) and isinstance(expr.slice, ast.Constant) and isinstance(expr.slice.value, int) and expr.slice.value >= 0:
+        if is_target(expr.value):
+            return expr.slice.value, id(expr.value)
+        if isinstance(expr.value, ast.Name):
+            defs = cfg.defs_reaching(at_stmt, expr.value.id)
+            got = set()
+            for dn in defs:
+                ds = cfg.ast_of(dn)
+                if isinstance(ds, ast.Assign) and len(ds.targets) == 1 and isinstance(ds.targets[0], ast.Name):
+                    call, off = sliced(ds.value)
+                    got.add((expr.slice.value + off, id(call)) if call is not None else None)
+                else:
+                    got.add(None)
+            if len(got) == 1 and None not in got:
+                return got.pop()
+        return None
+    if isinstance(expr, ast.Name):
+        got = set()
+        for dn in cfg.defs_reaching(at_stmt, expr.id):
+            ds = cfg.ast_of(dn)
+            if isinstance(ds, ast.Assign) and len(ds.targets) == 1 and isinstance(ds.targets[0], (ast.Tuple, ast.List)):
+                call, off = sliced(ds.value)
+                names = assigned_names(ds.targets[0])
+                if call is not None and expr.id in names and not any(isinstance(e, ast.Starred) for e in ds.targets[0].elts):
+                    got.add((names.index(expr.id) + off, id(call)))
+                    continue
+            elif isinstance(ds, ast.Assign) and len(ds.targets) == 1 and isinstance(ds.targets[0], ast.Name):
+                got.add(tuple_position_from_call(eng, cfg, ds, ds.value, target_fids, depth - 1))
+                continue
+            got.add(None)
+        if len(got) == 1 and None not in got:
+            return got.pop()
+    return None
+
+
+def expand_unpacked(cfg, at_ast, expr):
+    """Copy of expr in which a local bound by exactly one destructuring `a, b = X` (X a plain name / attribute) is replaced by `X[i]`, and single-definition
+    temporaries are looked through (expand_locals)."""
+    import copy
+
+    class _Sub(ast.NodeTransformer):
+        def visit_Name(self, node):
+            if not isinstance(node.ctx, ast.Load):
+                return node
+            try:
+                defs = cfg.defs_reaching(at_ast, node.id)
+            except Exception:
+                return node
+            if len(defs) != 1:
+                return node
+            st = cfg.ast_of(list(defs)[0])
+            if isinstance(st, ast.Assign) and len(st.targets) == 1 and isinstance(st.targets[0], (ast.Tuple, ast.List)) and isinstance(st.value, (ast.Name, ast.Attribute)) \
+                    and not any(isinstance(e, ast.Starred) for e in st.targets[0].elts):
+                names = [e.id if isinstance(e, ast.Name) else None for e in st.targets[0].elts]
+                if node.id in names:
+                    return ast.copy_location(ast.Subscript(value=copy.deepcopy(st.value), slice=ast.Constant(value=names.index(node.id)), ctx=ast.Load()), node)
+            return node
+    return _Sub().visit(expand_locals(cfg, at_ast, expr))
